@@ -1,8 +1,9 @@
 """C07: the generated family of ISLa constraints (concrete syntax).
 
-Every case is ``{"g": grammar name, "fam": family, "feat": feature class, "c":
-constraint text}``.  ``fam:feat`` is the deterministic input class used in
-violation signatures.  The texts are built from templates over the grammar
+Every case is ``{"g": grammar name, "fam": family, "feat": feature, "sig": coarse
+cause-oriented input class, "c": constraint text}``.  ``sig`` is the deterministic
+input class used in violation signatures (``fam:feat`` when nothing coarser is
+known).  The texts are built from templates over the grammar
 profile (own analysis, no ISLa); whether ``parse_isla`` accepts a text is decided
 by the check (a rejected text is a *skip*, the property quantifies over accepted
 constraints only).
@@ -245,9 +246,6 @@ def _terminal_class(symbols, rules) -> str:
     for ch, cls in _SPECIAL:
         if ch in text and cls not in found:
             found.append(cls)
-    adjacent = any(
-        symbols[i] not in rules and symbols[i + 1] not in rules for i in range(len(symbols) - 1)
-    )
     return "+".join(found) if found else "plain"
 
 
